@@ -123,6 +123,15 @@ PollWaiting(s, via, two) ==
                /\ LET sv == Release(w, guards) IN q' = sv[1] /\ granted' = sv[2]
                /\ UNCHANGED <<kind, val, ver, owners, weaks, subs, armed, registered, woken, owed, guards, futs>>
 
+(* the one point where the two admissible implementations of next() differ: a granted next() finds an update and a *)
+(* second acquisition would have to queue                                                                        *)
+AtChoicePoint(s, via) ==
+    /\ s \in WaitingSubs /\ via = "PollNext"
+    /\ LET w == WaiterOf(s) IN
+       /\ w \in granted /\ w.st = 1 /\ w.via = via
+       /\ PollResult(s).t = "Some"
+       /\ LET sv == Release(w, guards) IN ~(sv[1] = <<>> /\ ~WriterHeld(guards, sv[2]))
+
 WriterKinds == {"Set", "SetIfNotEq", "Update"}
 
 StartWriter(o, f, k, a) ==
